@@ -27,6 +27,10 @@ S = {
              "negative transition time with non-zero minutes/seconds in a version-3 footer (`/-1:30` → −1800)"),
  "C09-r4b": ("`parse_offset` range-checks `minute` twice, never `second`",
              "`EST5:00:60`, `EST5EDT4:00:75,…` accepted in both modes"),
+ "C10-r4a": ("`parse_rule_time` destructures `parse_hhmmss` as `(hour, second, minute)`",
+             "a footer / TZ string whose rule time has non-zero minutes (Pacific/Chatham, NZ-CHAT `/2:45`): footer-governed transitions 44 min 15 s early"),
+ "C10-r4b": ("transition table searched with `unix_time` instead of `unix_leap_time`",
+             "`right/` zones, up to 27 s after a recorded transition (right/America/New_York at 1583650800..826: EST for EDT)"),
  "C11-r4a": ("Julian-before-MWD same-year leap comparison reads `start_normal_year_offset`",
              "`Jn` (n ≥ 60) against `M2.w.d` (w = 3, 4) with times bringing them within a day: `J60/-144` vs `M2.4.0/24` accepted, flips in 2004"),
  "C11-r4b": ("month sort of `check_two_month_week_days` without `rem_euclid` (tests `rem == -1`)",
@@ -43,6 +47,34 @@ S = {
              "negative exact multiples of 1e9 that fit i64: `-1e9` → `(-2, 1_000_000_000)`"),
  "C16-r4b": ("`DateTime::from_total_nanoseconds` looks the type up at `total / 1e9` (truncation)",
              "negative non-whole-second total in the last second before a pre-1970 transition: wrong type, offset and fields"),
+ "C05-r4a": ("Fixed-rule branch of the search compares the candidate with the last transition's raw leap-count time",
+             "table + Fixed rule + leap seconds with non-zero correction at the last transition: instants in the c seconds after it are lost"),
+ "C05-r4b": ("`sorted` test of the yearly rule instants made strict",
+             "DST end coinciding with a DST start (`EST5EDT,0/0,J365/25`): results duplicated"),
+ "C06-r4a": ("first rule transition after the table chosen with `<=`",
+             "forward last table transition coinciding with a rule transition: the gap reported twice"),
+ "C06-r4b": ("last-transition guard narrowed to `Some(TransitionRule::Alternate(_))`",
+             "forward last table transition into a Fixed trailing rule (America/Caracas 2016): its gap is lost"),
+ "C07-r4a": ("`-167..=167` hour check of `parse_rule_time_extended` removed (\"the rule constructor checks the range\")",
+             "v3 footer with a rule-time hour ≥ 596524: i32 multiply overflow (panic in dev, wrapped and accepted in release)"),
+ "C07-r4b": ("`i + 1 < len` guard of `check_inputs` moved into the loop condition",
+             "last (or only) transition with an out-of-range type index and a trailing rule: index out of bounds"),
+ "C08-r4a": ("`isutcnt` / `isstdcnt` header reads swapped",
+             "files whose two counts differ (isstd-only vector with a 1 rejected; isut-only with a 1 accepted)"),
+ "C08-r4b": ("designation lookup `split(NUL).next()` (never `None`)",
+             "last designation without its NUL terminator (`HST\\0HDTX`, index 4) accepted"),
+ "C13-r4a": ("designation character test written as the range `b'+'..=b'-'`",
+             "a comma in a 3–7 byte designation"),
+ "C13-r4b": ("leap-table spacing through `abs_diff`",
+             "a table stepping back in time by ≥ 2419199 s (`[(2419199, 1), (0, 2)]`) accepted"),
+ "C17-r4a": ("`latest()` of the buffer list scans the whole caller buffer",
+             "buffer reused after a search with more results (2 results, then 1, into 2 slots): stale entry returned"),
+ "C17-r4b": ("new `DateTimeList::is_full()` + `break` in the Alternate loop of the search",
+             "Alternate rule, results from the rule part, buffer shorter than k: count under-reported, exhaustive claimed"),
+ "C20-r4a": ("POSIX fallback trimmed with `str::trim()`",
+             "value padded with U+000B / NBSP that names no file: accepted"),
+ "C20-r4b": ("directory search skips readable but empty files (`.filter(|b| !b.is_empty())`)",
+             "an empty file under an earlier directory: later directories opened / POSIX fallback instead of Err(TzFile)"),
  "C18-r4a": ("sign of the rendered offset taken from `ut_offset / 60`",
              "offsets −1 … −59 s: `+00:00:30` for −30"),
  "C18-r4b": ("year written `{year:04}`",
